@@ -639,7 +639,7 @@ func runC14(o Opts) {
 		corpusN = len(inputs)
 		n := 640
 		if o.Tier == "thorough" {
-			n = 12000
+			n = 5000
 		}
 		if o.N > 0 {
 			n = o.N
